@@ -361,14 +361,15 @@ func genSessionOnce(r *rand.Rand, n int, spec *CfgSpec, plain bool) *Session {
 			kind = "right"
 			if r.Intn(100) >= 58 {
 				kinds := []string{"wronguser", "wrongpass", "otherpass", "emptypass", "emptyuser", "swapped", "case", "passprefix",
-					"passplus", "badver", "literal-placeholder", "user255", "ulen+1", "plen-1", "nul-suffix"}
+					"passplus", "badver", "badver-short", "literal-placeholder", "user255", "ulen+1", "plen-1", "nul-suffix"}
 				kind = kinds[r.Intn(len(kinds))]
 			}
 		} else if r.Intn(2) == 0 {
-			kinds := []string{"emptyuser", "emptyuser-configured-pass", "wronguser", "badver", "both-empty", "literal-placeholder"}
+			kinds := []string{"emptyuser", "emptyuser-configured-pass", "wronguser", "badver", "badver-short", "both-empty", "literal-placeholder"}
 			kind = kinds[r.Intn(len(kinds))]
 		}
 		lieU, lieP := 0, 0
+		short := false
 		switch kind {
 		case "wronguser":
 			user = "mallory"
@@ -412,6 +413,11 @@ func genSessionOnce(r *rand.Rand, n int, spec *CfgSpec, plain bool) *Session {
 			pass += "x"
 		case "badver":
 			ver = []byte{0, 2, 5, 0xff}[r.Intn(4)]
+		case "badver-short":
+			// a sub-negotiation that is over after two bytes (wrong version, one more byte); whatever follows is the
+			// client's request, sent without any credentials having been presented
+			ver = []byte{0, 2, 5, 0xff}[r.Intn(4)]
+			short = true
 		case "literal-placeholder":
 			user, pass = "{env.VERIF_USER}", "{env.VERIF_PASS}"
 			if len(m.Pairs) > 0 && strings.HasPrefix(m.Pairs[0].User, "u-") {
@@ -439,22 +445,26 @@ func genSessionOnce(r *rand.Rand, n int, spec *CfgSpec, plain bool) *Session {
 		if plain {
 			lieU, lieP = 0, 0
 		}
-		sb.flippable = append(sb.flippable, len(sb.b), len(sb.b)+1)
-		sb.add(ver, byte(len(user)+lieU))
-		if len(user) > 0 {
-			sb.flippable = append(sb.flippable, len(sb.b)+r.Intn(len(user)))
+		if short {
+			sb.add(ver, byte(r.Intn(256)))
+		} else {
+			sb.flippable = append(sb.flippable, len(sb.b), len(sb.b)+1)
+			sb.add(ver, byte(len(user)+lieU))
+			if len(user) > 0 {
+				sb.flippable = append(sb.flippable, len(sb.b)+r.Intn(len(user)))
+			}
+			sb.add([]byte(user)...)
+			sb.flippable = append(sb.flippable, len(sb.b))
+			pl := len(pass) + lieP
+			if pl < 0 {
+				pl = 0
+			}
+			sb.add(byte(pl))
+			if len(pass) > 0 {
+				sb.flippable = append(sb.flippable, len(sb.b)+r.Intn(len(pass)))
+			}
+			sb.add([]byte(pass)...)
 		}
-		sb.add([]byte(user)...)
-		sb.flippable = append(sb.flippable, len(sb.b))
-		pl := len(pass) + lieP
-		if pl < 0 {
-			pl = 0
-		}
-		sb.add(byte(pl))
-		if len(pass) > 0 {
-			sb.flippable = append(sb.flippable, len(sb.b)+r.Intn(len(pass)))
-		}
-		sb.add([]byte(pass)...)
 		sb.mark()
 	}
 
